@@ -171,6 +171,9 @@ S judge(Ctx &ctx, const S &m, const char *scope) {
     }
     if (got.have && hdrStr(got.h) != hdrStr(ref)) { ctx.violation("unpack:wrong-header", where + "header decoded as " + hdrStr(got.h) + " expected " + hdrStr(ref)); return "hdrdiff"; }
     if (got.ret > (int)ref.an) { ctx.violation("unpack:more-records-than-ancount", where + "returned " + std::to_string(got.ret) + " records, ancount " + std::to_string(ref.an)); return "count"; }
+    if (ref.qd != 1) ctx.count("class:qdcount-not-1");
+    else if (!ref.qOk) ctx.count("class:malformed-question");
+    else if (!ref.qOdd) ctx.count(ref.rcode ? "class:wellformed-rcode" : ref.an == 0 ? "class:wellformed-no-answers" : ref.allRecs ? "class:wellformed-all-records" : "class:question-ok-records-broken");
     if (ref.qd != 1) return "qd" + std::to_string(ref.qd > 2 ? 2 : ref.qd) + "|" + retc; // Squid refuses by design: safety only
     if (!ref.qOk) return "badq|" + retc;                                                  // malformed question: safety only
     if (ref.qOdd) return "";                                                              // textual form not settled
@@ -302,6 +305,7 @@ void runQuery(Ctx &ctx, const S &w, size_t nl) {
     rfc1035_query dq; memset(&dq, 0, sizeof dq);
     snprintf(dq.name, sizeof dq.name, "%s", got.h.qname.c_str()); dq.qtype = got.h.qtype; dq.qclass = got.h.qclass;
     if (q.qtype != qtype || q.qclass != RFC1035_CLASS_IN || rfc1035QueryCompare(&q, &dq) != 0) { ctx.violation(id + "query-struct", "returned rfc1035_query does not compare equal to the packed question"); return; }
+    ctx.count("class:query-built-and-decoded");
     ctx.feature(S("Q") + fn + "|" + (edns > 0 ? "e" : "-") + "|" + std::to_string(ref.qname.size() / 16) + "|" + (host.size() != canon.size() ? "dot" : "") + "|x" + std::to_string(extra > 0));
 }
 
@@ -401,7 +405,7 @@ S genMessage(Rng &r) {
     }
     S m = e.m;
     // lies about counts, trailing bytes
-    if (r.chance(1, 15)) { const unsigned v = r.chance(1, 4) ? 65535 : (unsigned)(an + r.range(-2, 3)) & 0xffff; m[6] = (char)(v >> 8); m[7] = (char)v; }
+    if (r.chance(1, 15)) { const unsigned v = r.chance(1, 25) ? 65535 : (unsigned)std::max<long>(0, an + r.range(-2, 3)); m[6] = (char)(v >> 8); m[7] = (char)v; }
     if (r.chance(1, 10)) m += r.bytes(r.below(8));
     return m;
 }
@@ -485,7 +489,14 @@ S gen(Rng &r) {
         if (r.coin()) m = mutateMsg(r, m);
         if (m.size() >= 8 && u16(m, 6) > 64) { m[6] = 0; m[7] = (char)(u8(m, 7) & 63); }
         return "T\n" + m; }
-    default: { const S m = genMessage(r); return "R\n" + (r.chance(2, 5) ? mutateMsg(r, m) : m); }
+    default: {
+        S m = genMessage(r);
+        if (r.chance(2, 5)) {
+            m = mutateMsg(r, m);
+            // a huge ancount costs an 18 MB allocation per unpack: keep that to about one mutated case in a hundred
+            if (m.size() >= 8 && u16(m, 6) > 255 && !r.chance(1, 10)) m[6] = 0;
+        }
+        return "R\n" + m; }
     }
 }
 
